@@ -1158,6 +1158,30 @@ fn mint_case(ctx: &mut Ctx, r: &mut Rng, _i: u64) {
                     } else if out_of_range {
                         bad.push(("MintBuilder.build/amount-outside-int-range".into(), format!("{:?}", got_nz)));
                     }
+                    // what the builder built feeds the balance of the transaction builder: the split into
+                    // minted and burned bundles returns (never panics) and is exact
+                    let pos = mint.as_positive_multiasset();
+                    let negm = mint.as_negative_multiasset();
+                    let sum_side = |ma: &MultiAsset| -> NB {
+                        let mut t = NB::zero();
+                        let pols = ma.keys();
+                        for i in 0..pols.len() {
+                            if let Some(a) = ma.get(&pols.get(i)) {
+                                let names = a.keys();
+                                for j in 0..names.len() {
+                                    if let Some(q) = a.get(&names.get(j)) {
+                                        t += nb(u64::from(q));
+                                    }
+                                }
+                            }
+                        }
+                        t
+                    };
+                    let want_pos: NB = want.values().filter(|v| **v > NB::zero()).cloned().sum();
+                    let want_neg: NB = want.values().filter(|v| **v < NB::zero()).map(|v| -v.clone()).sum();
+                    if sum_side(&pos) != want_pos || sum_side(&negm) != want_neg {
+                        bad.push(("MintBuilder.build().as_positive/negative_multiasset/differs-from-exact".into(), format!("{:?}", got_nz)));
+                    }
                     // the emitted bytes must denote the same amounts
                     let bytes = mint.to_bytes();
                     if let Ok(it) = cbor::parse(&bytes) {
